@@ -293,4 +293,12 @@ def r5(ctx):
     ctx.obligations = saved + ctx.obligations
 
 
-RULES = [("C08.R1", r1), ("C08.R2", r2), ("C08.R3", r3), ("C08.R4", r4), ("C08.R5", r5)]
+
+def r6(ctx):
+    """both materializers encode identically (kind inference aside): shared encoders are the same functions (= C05.R1)."""
+    from .shared import relabel
+    from . import c05
+    relabel(ctx, "C08.R6", c05.r1)
+
+
+RULES = [("C08.R1", r1), ("C08.R2", r2), ("C08.R3", r3), ("C08.R4", r4), ("C08.R5", r5), ("C08.R6", r6)]
